@@ -259,7 +259,42 @@ func runFromPoint(q ref.Pt, z *big.Int) string {
 	return checkPub(k, q)
 }
 
+// runRecover: the third route to a PublicKey object. (e, k, t) describe a signature with R = k*G, r = x(R) mod n,
+// s chosen so that the recovered point is Q = t*G; t = 0 makes Q the identity, which must be refused.
+func runRecover(e, k, t *big.Int) string {
+	rp := ref.BaseMul(k)
+	r := ref.ModN(rp.X)
+	if r.Sign() == 0 {
+		return ""
+	}
+	// Q = r^-1 (s R - e G) = r^-1 (s k - e) G  =>  s = (t r + e) / k
+	sv := ref.ZnMul(ref.ZnAdd(ref.ZnMul(t, r), e), ref.ZnInv(k))
+	if sv.Sign() == 0 {
+		return ""
+	}
+	v := byte(rp.Y.Bit(0))
+	if rp.X.Cmp(ref.N) >= 0 {
+		v |= 2
+	}
+	pk, err := secec.RecoverPublicKey(ref.B32(e), lib.MkSC(r), lib.MkSC(sv), v)
+	q := ref.BaseMul(t)
+	if t.Sign() == 0 {
+		q = ref.Infinity()
+	}
+	if q.Inf {
+		if err == nil || pk != nil {
+			return fmt.Sprintf("RecoverPublicKey returned a PublicKey object for a signature that recovers the point at infinity (r=%x s=%x v=%d)", r, sv, v)
+		}
+		return ""
+	}
+	if err != nil {
+		return "RecoverPublicKey failed on a signature that recovers a valid point: " + err.Error()
+	}
+	return checkPub(pk, q)
+}
+
 func register() {
+	mc.Register("recover", func(d mc.D) string { return runRecover(d.Big("e"), d.Big("k"), d.Big("t")) })
 	mc.Register("ecdh", func(d mc.D) string { return runECDH(d.Big("a"), d.Big("b"), d.I("format")) })
 	mc.Register("priv", func(d mc.D) string { return runPriv(d.B("bytes")) })
 	mc.Register("pub", func(d mc.D) string { return runPub(d.B("bytes")) })
@@ -465,6 +500,14 @@ func main() {
 	for _, p := range pts {
 		for _, z := range zs {
 			R.Run("NewPublicKeyFromPoint", "frompoint", mc.D{"q": lib.PtHex(p.P), "z": fmt.Sprintf("%x", z.V)})
+		}
+	}
+	// RecoverPublicKey as a route to a key object: recovered point t*G for t = 0 (identity: refused) and small / boundary t
+	for _, e := range []*big.Int{big.NewInt(0), big.NewInt(1), ref.ModN(ref.OS2IP(ref.TaggedHash("verif/C10", []byte("e")))), new(big.Int).Sub(ref.N, big.NewInt(1))} {
+		for _, k := range []int64{1, 2, 3, 7} {
+			for _, t := range []*big.Int{big.NewInt(0), big.NewInt(1), big.NewInt(2), new(big.Int).Sub(ref.N, big.NewInt(1)), ref.HalfN} {
+				R.Run("RecoverPublicKey -> key object", "recover", mc.D{"e": mc.HexBig(e), "k": mc.HexBig(big.NewInt(k)), "t": mc.HexBig(t)})
+			}
 		}
 	}
 	// Equal matrix over a few points
